@@ -279,7 +279,7 @@ func c11SpareProps(r *rand.Rand, label string) gts.Props {
 	case 0:
 		items = append(items, kv{"note", []string{"n " + label}})
 	case 1:
-		items = append(items, kv{"gene", []string{"g" + label, "h" + label}}, kv{"codon_start", []string{"1"}})
+		items = append(items, kv{"gene", []string{"z" + label, "g" + label, "m" + label}}, kv{"codon_start", []string{"1"}})
 	case 2:
 		items = append(items, kv{"pseudo", []string{""}})
 	}
